@@ -84,6 +84,18 @@ def gen_const(rng: random.Random, name: str):
     if k < 0.24:
         return ["c", t, name, "{1, 2}", {"set": 1}]
     lo, hi = T.value_range(t)
+    if rng.random() < 0.12:
+        # real literals with more significant digits than any fixed-precision decimal context keeps: exact, never rounded
+        from fractions import Fraction as _F
+        digits = rng.choice([29, 31, 35, 40, 60])
+        base = rng.choice([hi, lo, _F(1), _F(0), hi - 1, _F(int(hi) // 3)]) if t[0] != "f" else rng.choice([hi, lo, _F(1), _F(65504), _F(0)])
+        ip = int(base)
+        eps = rng.choice(["0" * (digits - 1) + "1", "0" * digits, "9" * digits, "0" * (digits - 2) + "25"])
+        lit = "%d.%s" % (ip, eps)
+        if len(str(abs(ip))) > 30 and rng.random() < 0.5:
+            lit = "%d.0" % ip  # a long integral real literal (e.g. the exact float32 maximum)
+        v = _F(lit)
+        return ["c", t, name, lit, [v.numerator, v.denominator]]
     if t[0] == "f":
         e = FLOAT_EXPR[t[1]]
         choice = rng.randrange(9)
